@@ -23,7 +23,8 @@ SPECFUNCS = {
 }
 
 FLUSH_LOOP_INV = [(c[0], c[1]) for c in TX_INV] + [
-    ('suffix', 'self._tx_pend_start == slice(old(self._tx_pend_start), flushed_n(self), length(old(self._tx_pend_start)))'),
+    ('suffix', 'flushed_n(self) >= 0 and forall(i, 0, length(self._tx_pend_start), '
+               'self._tx_pend_start[i] == old(self._tx_pend_start)[i + flushed_n(self)])'),
     ('flushed_reported', 'forall(i, 0, flushed_n(self), '
                          'contains(ghost.tx_finished, unwrap(old(self._tx_pend_start)[i].transfer_id)))'),
     ('ids_kept', 'forall(it, "Ref[BundleItem]", eqv(it.transfer_id, old(it.transfer_id)))'),
@@ -104,8 +105,12 @@ FUNCS = {
     'tcpcl.session:ContactHandler.recv_xfer_refuse': dict(
         params={'transfer_id': 'Int', 'reason': 'Int'}, props=['C17', 'C18'], handler=True,
         requires=[('open', 'not closed(self)', []), ('wire_values', 'transfer_id >= 0 and reason >= 0', [])],
-        raises={'RejectError': dict(when='not self._in_sess or not contains(self._tx_map, transfer_id)',
+        # a refusal names a transfer that was started and is not yet finished; anything else is rejected
+        raises={'RejectError': dict(when='not self._in_sess or not contains(self._tx_map, transfer_id) or '
+                                         'in_pend(self, lookup(self._tx_map, transfer_id))',
                                     iff=True, attrs={'reason': '3'}, modifies=[])},
+        # the refused transfer is over on the wire as well: the output automaton may start the next one
+        ghost_exit=['ghost.cur_xid = ite(eqv(ghost.cur_xid, transfer_id), None, ghost.cur_xid)'],
         modifies=['ContactHandler._tx_pend_ack', 'ContactHandler._tx_map', 'ContactHandler._tx_tmp',
                   'ContactHandler._tx_length', 'ghost.signals', 'ghost.tx_finished', 'ghost.tx_live', 'ghost.cur_xid']
         + TRIGGER_MODS + MCLOSE_MODS,
